@@ -44,6 +44,8 @@ func init() {
 		"Yield":       func(fr *frame, args []value) value { fr.i.yield(); return nil },
 		"Preemptions": vxPreemptions,
 		"Eq":          vxEq,
+		"TestFileBase": func(fr *frame, args []value) value { return "x_test" },
+		"TestFileDir": func(fr *frame, args []value) value { return "/pkg" },
 		"YAMLAssume":  func(fr *frame, args []value) value { fr.i.path.extra["yamlassume"] = fr.i.truth(args[0]); return nil },
 		"And":         func(fr *frame, args []value) value { return norm(types.Typ[types.Bool], fr.i.tb.And(boolTerm(fr.i, args[0]), boolTerm(fr.i, args[1]))) },
 		"Or":          func(fr *frame, args []value) value { return norm(types.Typ[types.Bool], fr.i.tb.Or(boolTerm(fr.i, args[0]), boolTerm(fr.i, args[1]))) },
@@ -208,7 +210,7 @@ func vxCISymbolic(fr *frame, args []value) value {
 }
 
 func vxTrimpath(fr *frame, args []value) value {
-	fr.i.path.extra["trimpath"] = args[0]
+	fr.i.path.extra["goroot_empty"] = fr.i.truth(args[0])
 	return nil
 }
 
